@@ -64,6 +64,13 @@ def _flagcombos(f, tc):
 
 
 def cases(tier, seed, flavour):
+    for c in _cases(tier):
+        c['tier'] = tier
+        c['seed'] = seed
+        yield c
+
+
+def _cases(tier):
     dm = _dom(tier)
     for f in R.FUNCTIONS:
         sp = R.SPEC[f]
@@ -167,7 +174,8 @@ def _mk(matrix, buf, shape, tc):
 
 
 def _raw(o):
-    return bytes(memoryview(o)) if not isinstance(o, list) else repr(o).encode()
+    # order='A': the bytes as they lie in memory (column-major), not the row-major logical flattening
+    return memoryview(o).tobytes('A') if not isinstance(o, list) else repr(o).encode()
 
 
 def _absmax(vals):
@@ -190,6 +198,9 @@ def _features(p, tcs, sp):
             feats.append('empty-operand')
         if p['defaulted']:
             feats.append('default-' + '+'.join(sorted(p['defaulted'])))
+        for m, a in sp['arrays'].items():
+            if a[0] == 'M' and a[3] in p['defaulted'] and env[m].r == 0:
+                feats.append('ld-from-empty:' + a[3])
     return feats
 
 
@@ -234,7 +245,7 @@ def evaluate(st, f, tcs, shapes, kw, replace=None):
             st.bad('accepted', feats, '%s accepted a call it must reject (%s); returned %r' % (f, p['why'], ret), sub)
         elif exc is not None and not isinstance(exc, (TypeError, ValueError)):
             st.bad('wrong-exception', feats, '%s raised %s: %s' % (f, type(exc).__name__, exc), sub)
-        if after != before:
+        if after != before and not (exc is None and v == 'reject'):
             st.bad('modified-on-reject', feats, '%s changed an argument of a call that is invalid (%s)' % (f, p['why']), sub)
         return
     # ---- valid call
@@ -245,7 +256,10 @@ def evaluate(st, f, tcs, shapes, kw, replace=None):
     if exc is not None:
         st.bad('raised', feats, '%s rejected a valid call: %s: %s' % (f, type(exc).__name__, exc), sub)
         return
-    want_ret, new, fp = R.apply(f, p['env'], kw, bufs)
+    if p['vacuous']:
+        want_ret, new, fp = None, bufs, {}
+    else:
+        want_ret, new, fp = R.apply(f, p['env'], kw, bufs)
     mag = 1.0
     for m in sp['mats']:
         mag = max(mag, _absmax(bufs[m]))
@@ -290,3 +304,209 @@ def evaluate(st, f, tcs, shapes, kw, replace=None):
             st.maxerr = e
         if not okt or not e <= TOL:
             st.bad('value', feats, '%s returned %r, reference %r' % (f, ret, want_ret), sub)
+
+
+# ------------------------------------------------------------------------------------------------ modes
+BIG = (4096, 1)
+PAIRWISE3 = {2: [(0, 0, 0), (0, 1, 1), (1, 0, 1), (1, 1, 0)],
+             3: [(0, 0, 0), (1, 1, 1), (2, 2, 2), (0, 1, 2), (1, 2, 0), (2, 0, 1), (0, 2, 1), (2, 1, 0), (1, 0, 2)]}
+
+
+def _scalars(f, tc, sc):
+    """keyword scalars for palette index sc (0 = omitted where optional)."""
+    sp = R.SPEC[f]
+    kw = {}
+    for name, cls in sp['scalars'].items():
+        pal = (ALPHA_REAL if name == 'alpha' else BETA_REAL) if cls == 'real' else (ALPHA if name == 'alpha' else BETA)[tc]
+        v = pal[sc]
+        if v is None and name in sp['sig'][:sp['nreq']]:
+            v = 1                       # scal: alpha is a required argument
+        if v is not None:
+            kw[name] = v
+    return kw
+
+
+def _names(f, classes):
+    return [e[0] for e in R.SPEC[f]['ints'] if e[1] in classes]
+
+
+def _incvals(f, name):
+    cls = [e[1] for e in R.SPEC[f]['ints'] if e[0] == name][0]
+    return (1, 2, -1, -2) if cls == 'nz' else (1, 2)
+
+
+def _run_l1(st, case, dm, seed):
+    f, tc = case['f'], case['tc']
+    sp = R.SPEC[f]
+    st.var = case.get('var', 0)
+    incn, offn = _names(f, ('nz', 'pos')), _names(f, ('nn',))
+    skw = _scalars(f, tc, case['sc'])
+    two = len(sp['mats']) == 2
+    lens = range(0, dm['L1'] + (1 if two else 3))
+    tcs = dict((m, tc) for m in sp['mats'])
+    for ls in itertools.product(lens, repeat=len(sp['mats'])):
+        shapes = dict((m, (ls[i], 1)) for i, m in enumerate(sp['mats']))
+        for incs in itertools.product(*[('omit',) + _incvals(f, n) for n in incn]):
+            for offs in itertools.product(('omit',) + tuple(dm['OFF']), repeat=len(offn)):
+                kw = dict(skw)
+                if case['n'] != 'omit':
+                    kw['n'] = case['n']
+                for n_, v in list(zip(incn, incs)) + list(zip(offn, offs)):
+                    if v != 'omit':
+                        kw[n_] = v
+                evaluate(st, f, tcs, shapes, kw)
+
+
+def _offsets(noff, dm, reduced):
+    vals = tuple(dm['OFF'])
+    if reduced and noff == 3:
+        return PAIRWISE3[len(vals)]
+    return list(itertools.product(vals, repeat=noff))
+
+
+def _run_x(st, case, dm, seed):
+    f, tc, flags = case['f'], case['tc'], case['flags']
+    sp = R.SPEC[f]
+    dn = _dimnames(f)
+    ranges = [(case['d0'],)] + [tuple(range(0, (dm['D'] if sp['dims'][n] == 'dim' else dm['K']) + 1)) for n in dn[1:]]
+    incn, ldn, offn = _names(f, ('nz', 'pos')), _names(f, ('ld',)), _names(f, ('nn',))
+    skw = _scalars(f, tc, case['sc'])
+    reduced = (f == 'gbmv') or (dm['D'] == 2 and len(offn) == 3)
+    offsets = _offsets(len(offn), dm, reduced)
+    tcs = dict((m, tc) for m in sp['mats'])
+    big = dict((m, BIG) for m in sp['mats'])
+    offof = dict((m, a[-1]) for m, a in sp['arrays'].items())
+    for dims in itertools.product(*ranges):
+        env0 = dict(flags)
+        env0.update(zip(dn, dims))
+        ldmins = [R._ev(sp['ldmin'][l], env0) for l in ldn]
+        for incs in itertools.product(*[_incvals(f, n) for n in incn]):
+            for lds in itertools.product(*[(m, m + 1) for m in ldmins]):
+                for offs in offsets:
+                    kw = dict(flags)
+                    kw.update(skw)
+                    kw.update(zip(dn, dims))
+                    kw.update(zip(incn, incs))
+                    kw.update(zip(ldn, lds))
+                    kw.update(zip(offn, offs))
+                    ext = R.predict(f, tcs, big, kw)['ext']
+                    for pad in (0, 1):
+                        shapes = dict((m, ((ext[m] or kw[offof[m]]) + pad, 1)) for m in sp['mats'])
+                        evaluate(st, f, tcs, shapes, kw)
+                    exact = dict((m, (ext[m] or kw[offof[m]], 1)) for m in sp['mats'])
+                    for m in sp['mats']:
+                        if ext[m] > 0:
+                            evaluate(st, f, tcs, dict(exact, **{m: (ext[m] - 1, 1)}), kw)
+
+
+def _run_d(st, case, dm, seed):
+    f, tc, flags = case['f'], case['tc'], case['flags']
+    sp = R.SPEC[f]
+    thorough = dm['D'] == 3
+    S, VL = dm['S'], dm['VL']
+    mshapes = [(r, c) for r in range(S + 1) for c in range(S + 1)]
+    firstM = [m for m in sp['mats'] if sp['arrays'][m][0] == 'M'][0]
+    cand = {}
+    for (name, cls, default, _) in sp['ints']:
+        if cls == 'int':
+            cand[name] = (0, 1) if sp['dims'].get(name) == 'band' else ((0, 1, 2, 3) if thorough else (0, 1, 2))
+        elif cls == 'ld':
+            cand[name] = (2, 3)
+        elif cls in ('nz', 'pos'):
+            cand[name] = (2, -1, -2) if thorough else (2, -1)
+        elif cls == 'nn':
+            cand[name] = (1, 2) if thorough else (1,)
+    req = [(name, tuple(range(0, (dm['D'] if sp['dims'][name] == 'dim' else dm['K']) + 1)))
+           for (name, cls, _, _) in sp['ints'] if cls == 'nnreq']
+    pal = _scalars(f, tc, 1)
+    variants = [{}]
+    for names in (('alpha', 'beta'), ('alpha',), ('beta',)):
+        v = dict((k, pal[k]) for k in names if k in pal)
+        if v and v not in variants:
+            variants.append(v)
+    sentinel = dict((name, -1 if cls == 'int' else 0) for (name, cls, _, _) in sp['ints'] if cls in ('int', 'ld'))
+    variants.append(sentinel)
+    for name in sorted(cand):
+        for v in cand[name]:
+            variants.append({name: v})
+    tcs = dict((m, tc) for m in sp['mats'])
+    choices = []
+    for m in sp['mats']:
+        if sp['arrays'][m][0] == 'M':
+            choices.append([s for s in mshapes if (m != firstM or s[0] == case['part'])])
+        else:
+            choices.append([(L, 1) for L in range(VL + 1)])
+    for shp in itertools.product(*choices):
+        shapes = dict(zip(sp['mats'], shp))
+        for rv in itertools.product(*[r[1] for r in req]):
+            base = dict(flags)
+            base.update(zip([r[0] for r in req], rv))
+            for var in variants:
+                evaluate(st, f, tcs, shapes, dict(base, **var))
+
+
+def _run_r(st, case, dm, seed):
+    f, tc, flags = case['f'], case['tc'], case['flags']
+    sp = R.SPEC[f]
+    dn = _dimnames(f)
+    incn, ldn, offn = _names(f, ('nz', 'pos')), _names(f, ('ld',)), _names(f, ('nn',))
+    other = 'z' if tc == 'd' else 'd'
+    for incv in (1, -2):
+        kw = dict(flags)
+        kw.update(_scalars(f, tc, 1))
+        for n in dn:
+            kw[n] = 2 if sp['dims'][n] == 'dim' else 1
+        for n in incn:
+            cls = [e[1] for e in sp['ints'] if e[0] == n][0]
+            kw[n] = incv if cls == 'nz' else abs(incv)
+        ldmins = dict((l, R._ev(sp['ldmin'][l], kw)) for l in ldn)
+        for l in ldn:
+            kw[l] = ldmins[l] + 1
+        for n in offn:
+            kw[n] = 1
+        tcs = dict((m, tc) for m in sp['mats'])
+        ext = R.predict(f, tcs, dict((m, BIG) for m in sp['mats']), kw)['ext']
+        shapes = dict((m, (ext[m] + 1, 1)) for m in sp['mats'])
+        evaluate(st, f, tcs, shapes, kw)                                  # the valid baseline
+        # typecodes / non-matrix arguments
+        for m in sp['mats']:
+            for t in (other, 'i', None):
+                evaluate(st, f, dict(tcs, **{m: t}), shapes, kw)
+        evaluate(st, f, dict((m, 'i') for m in sp['mats']), shapes, kw)
+        if sp['types'] == 'd':
+            evaluate(st, f, dict((m, 'z') for m in sp['mats']), shapes, kw)
+        # integer domains
+        for n in incn:
+            evaluate(st, f, tcs, shapes, dict(kw, **{n: 0}))
+            if kw[n] > 0 and [e[1] for e in sp['ints'] if e[0] == n][0] == 'pos':
+                evaluate(st, f, tcs, shapes, dict(kw, **{n: -1}))
+        for n in offn:
+            evaluate(st, f, tcs, shapes, dict(kw, **{n: -1}))
+        for l in ldn:
+            if ldmins[l] - 1 >= 1:
+                evaluate(st, f, tcs, shapes, dict(kw, **{l: ldmins[l] - 1}))
+            evaluate(st, f, tcs, shapes, dict(kw, **{l: -1}))
+        for (n, cls, _, _) in sp['ints']:
+            if cls == 'nnreq':
+                evaluate(st, f, tcs, shapes, dict(kw, **{n: -1}))
+        # options
+        for name in sp['flags']:
+            for bad in ('X', flags[name].lower()):
+                evaluate(st, f, tcs, shapes, dict(kw, **{name: bad}))
+        if f == 'syr2k' and tc == 'z':
+            evaluate(st, f, tcs, shapes, dict(kw, trans='C'))
+        # scalars
+        for name, cls in sp['scalars'].items():
+            if tc == 'd' or cls == 'real':
+                evaluate(st, f, tcs, shapes, dict(kw, **{name: complex(1.0, 1.0)}))
+            evaluate(st, f, tcs, shapes, dict(kw, **{name: 'a'}))
+            evaluate(st, f, tcs, shapes, dict(kw, **{name: None}))
+
+
+def run(case):
+    seed = case.get('seed', 0)
+    dm = _dom(case['tier'])
+    st = State(seed, case['f'])
+    {'l1': _run_l1, 'x': _run_x, 'd': _run_d, 'r': _run_r}[case['mode']](st, case, dm, seed)
+    return {'n': st.n, 'nontrivial': st.nontrivial, 'outcomes': st.outcomes, 'viol': st.viol,
+            'maxerr': {'blas': st.maxerr}}
